@@ -228,6 +228,24 @@ def r23_table_rw(ctx):
             for c in ast.walk(n.value):
                 for g in getattr(c, "generators", ()):
                     cands.append(g.iter)
+    # unrolled form: `if info.get("key") is not None: present = True`
+    from ..flow import path_conds
+    direct = set()
+    for n in walk_no_nested(cf.node):
+        if isinstance(n, ast.Assign) and isinstance(
+                n.targets[0], ast.Name) and U(n.value) == "True" and \
+                n.targets[0].id in tested:
+            for t, pol in path_conds(n):
+                for c in ast.walk(t):
+                    if isinstance(c, ast.Call) and isinstance(
+                            c.func, ast.Attribute) and c.func.attr == "get" \
+                            and c.args and isinstance(
+                                c.args[0], ast.Constant) and isinstance(
+                                    c.args[0].value, str) and \
+                            c.args[0].value != "truncated":
+                        direct.add(c.args[0].value)
+    if direct:
+        is_year_list = direct
     for it in cands:
         try:
             vals = ctx.folder.fold(it, cf.module, cf.cls, {})
@@ -546,7 +564,22 @@ def r24_form_shapes(ctx):
     f = tp.methods.get("_get_dump_format")
     if f is None:
         raise AnalysisError("TimePoint._get_dump_format not found")
-    outs = enumerate_strings(ctx, f)
+    from .. import strabs
+    outs = set()
+    for sh in strabs.shapes(ctx, f):
+        if not isinstance(sh, strabs.Str):
+            rep.error("R24", "%s: a returned value (%r) is not a string "
+                      "assembled from constants" % (f.qual, sh))
+            continue
+        text = repr(sh)
+        # the year: "%0<width>d" not yet applied, or [+-]<year>
+        text = re.sub(r"%0<[^>]*>d", "<year>", text)
+        text = re.sub(r"[-+]?<year>", "<year>", text)
+        if "<" in text.replace("<year>", ""):
+            rep.error("R24", "%s: result %r contains a value other than "
+                      "the year" % (f.qual, text))
+            continue
+        outs.add(text)
     ext_dates = set(T.expressions(dmap["extended"]["complete"]))
     ext_times = set(T.expressions(tmap["extended"]["complete"])) | set(
         T.expressions(tmap["extended"]["reduced"]))
